@@ -990,6 +990,10 @@ Box<ITV>::relation_with(const Constraint& c) const {
             && Poly_Con_Relation::is_included();
         }
       case 1:
+        if (c.is_equality()) {
+          // The equality `k = 0', with `k > 0', is inconsistent.
+          return Poly_Con_Relation::is_disjoint();
+        }
         return Poly_Con_Relation::is_included();
       }
     }
